@@ -333,4 +333,145 @@ theorem prunedVals_model (m : Nat) (hm : 0 < m)
 
 end Rows
 
+/-! ### `diversify` (dense, forward): the scan loop and the candidate loop of one row -/
+section Diversify
+variable {P : Type} [LE P] [LT P] [DecidableLE P] [DecidableLT P] [OfNat P 0] [SortFn P] [DivParams P]
+
+/-- two parallel arrays as the model's list of entries -/
+def ents (a : Array Int) (b : Array P) : List (Ent P) := a.toList.zip b.toList
+
+/-- the generator tests of row `i` as the model takes them -/
+def drawOf (P : Type) [DivParams P] (i : Nat) : Nat → Bool := fun c => DivParams.draw P (i : Int) (c : Int)
+
+theorem ents_drop_lt (a : Array Int) (b : Array P) (h : a.size = b.size) (k : Nat) (hk : k < a.size) :
+    (ents a b).drop k = (a[k], b[k]'(h ▸ hk)) :: (ents a b).drop (k + 1) := by
+  have hl : k < (ents a b).length := by simp [ents, h]; omega
+  rw [List.drop_eq_getElem_cons hl]
+  simp [ents]
+
+theorem ents_drop_ge (a : Array Int) (b : Array P) (k : Nat) (hk : a.size ≤ k) : (ents a b).drop k = [] := by
+  apply List.drop_eq_nil_of_le
+  simp [ents]; omega
+
+theorem ents_push (a : Array Int) (b : Array P) (h : a.size = b.size) (x : Int) (y : P) :
+    ents (a.push x) (b.push y) = ents a b ++ [(x, y)] := by
+  have hl : a.toList.length = b.toList.length := by simp [h]
+  simp [ents, List.zip_append hl]
+
+/-- the scan `for k in range(len(new_indices))` of one candidate = the model's `scanNew` -/
+theorem diversify_loop2 (indices : Array (Array Int)) (distances : Array (Array P)) (data : Array (Array P))
+    (i j : Nat) (hi : i < indices.size) (hd : i < distances.size) (hj : j < indices[i].size)
+    (hjd : j < distances[i].size) (ni : Array Int) (nd : Array P) (hn : ni.size = nd.size) :
+    ∀ (fuel k c : Nat) (flag : Bool), k ≤ ni.size → ni.size - k + 1 ≤ fuel →
+      ∃ k' : Int, diversify.loop2 indices distances data () (i : Int) ni nd (j : Int) (ni.size : Int) fuel
+          (c : Int) flag (k : Int)
+        = some (.next (((scanNew DivParams.eps DivParams.dist (drawOf P i) indices[i][j] distances[i][j]
+              ((ents ni nd).drop k) c).2 : Nat),
+            (if (scanNew DivParams.eps DivParams.dist (drawOf P i) indices[i][j] distances[i][j]
+              ((ents ni nd).drop k) c).1 then flag else false), k')) := by
+  intro fuel
+  induction fuel with
+  | zero => intro k c flag hk hf; omega
+  | succ fuel ih =>
+    intro k c flag hk hf
+    rw [diversify.loop2]
+    by_cases ck : k < ni.size
+    · have ck' : (k : Int) < (ni.size : Int) := Int.ofNat_lt.2 ck
+      have ek : (k : Int) + 1 = ((k + 1 : Nat) : Int) := by omega
+      have ec : (c : Int) + 1 = ((c + 1 : Nat) : Int) := by omega
+      rw [ents_drop_lt ni nd hn k ck, scanNew]
+      simp only [ck', if_true, rd_lt ni k ck, rd_lt nd k (hn ▸ ck), rd_lt indices i hi, rd_lt distances i hd,
+        rd_lt indices[i] j hj, rd_lt distances[i] j hjd, Option.bind_eq_bind, Option.bind_some, ek, ec]
+      by_cases c1 : (DivParams.eps : P) < nd[k]'(hn ▸ ck)
+      · have c1' : nd[k]'(hn ▸ ck) > (DivParams.eps : P) := c1
+        simp only [c1', if_true]
+        by_cases c2 : (DivParams.dist indices[i][j] ni[k] : P) < distances[i][j]
+        · simp only [c2, if_true, c1, and_self]
+          by_cases c3 : DivParams.draw P (i : Int) (c : Int) = true
+          · have c3' : drawOf P i c = true := c3
+            simp only [c3, c3', if_true]
+            exact ⟨_, rfl⟩
+          · have c3' : ¬ drawOf P i c = true := c3
+            simp only [c3, c3', if_false, Bool.false_eq_true]
+            exact ih (k + 1) (c + 1) flag (by omega) (by omega)
+        · simp only [c2, if_false, c1, and_false]
+          exact ih (k + 1) c flag (by omega) (by omega)
+      · have c1' : ¬ nd[k]'(hn ▸ ck) > (DivParams.eps : P) := c1
+        simp only [c1', if_false, c1, false_and]
+        exact ih (k + 1) c flag (by omega) (by omega)
+    · have ck' : ¬ (k : Int) < (ni.size : Int) := by omega
+      rw [ents_drop_ge ni nd k (by omega), scanNew]
+      simp only [ck', if_false, Option.pure_def, if_true]
+      exact ⟨_, rfl⟩
+
+/-- the candidate loop `for j in range(1, width)` of one row = the model's `divLoop` -/
+theorem diversify_loop1 (indices : Array (Array Int)) (distances : Array (Array P)) (data : Array (Array P))
+    (i : Nat) (hi : i < indices.size) (hd : i < distances.size) (hw : indices[i].size = distances[i].size) :
+    ∀ (fuel j c : Nat) (ni : Array Int) (nd : Array P), ni.size = nd.size → j ≤ indices[i].size →
+      ni.size ≤ j → (indices[i].size - j) + indices[i].size + 2 ≤ fuel →
+      ∃ (c' j' : Int) (ni' : Array Int) (nd' : Array P),
+        diversify.loop1 indices distances data () (i : Int) (indices[i].size : Int) fuel (c : Int) ni nd (j : Int)
+          = some (.next (c', ni', nd', j')) ∧ ni'.size = nd'.size ∧
+        ni'.size ≤ ni.size + (indices[i].size - j) ∧
+        ents ni' nd' = (divLoop DivParams.eps DivParams.dist (drawOf P i)
+          ((ents indices[i] distances[i]).drop j) (ents ni nd) c).1 := by
+  intro fuel
+  induction fuel with
+  | zero => intro j c ni nd hn hj hs hf; omega
+  | succ fuel ih =>
+    intro j c ni nd hn hj hs hf
+    rw [diversify.loop1]
+    by_cases cj : j < indices[i].size
+    · have cj' : (j : Int) < (indices[i].size : Int) := Int.ofNat_lt.2 cj
+      have ej : (j : Int) + 1 = ((j + 1 : Nat) : Int) := by omega
+      have hjd : j < distances[i].size := hw ▸ cj
+      rw [ents_drop_lt indices[i] distances[i] hw j cj, divLoop]
+      simp only [cj', if_true, rd_lt indices i hi, rd_lt distances i hd, rd_lt indices[i] j cj,
+        rd_lt distances[i] j hjd, Option.bind_eq_bind, Option.bind_some, ej]
+      by_cases cn : indices[i][j] < 0
+      · simp only [cn, if_true, Option.pure_def]
+        exact ⟨_, _, ni, nd, rfl, hn, by omega, rfl⟩
+      · simp only [cn, if_false]
+        obtain ⟨k', hL⟩ := diversify_loop2 indices distances data i j hi hd cj hjd ni nd hn fuel 0 c true
+          (by omega) (by omega)
+        have e0 : ((0 : Nat) : Int) = 0 := rfl
+        rw [e0, List.drop_zero] at hL
+        simp only [hL, Option.bind_some]
+        by_cases cf : (scanNew DivParams.eps DivParams.dist (drawOf P i) indices[i][j] distances[i][j]
+            (ents ni nd) c).1 = true
+        · simp only [cf, if_true]
+          obtain ⟨c', j', ni', nd', h1, h2, h3, h4⟩ := ih (j + 1) _ (ni.push indices[i][j])
+            (nd.push distances[i][j]) (by simp [hn]) (by omega) (by simp; omega) (by omega)
+          refine ⟨c', j', ni', nd', h1, h2, by simp at h3; omega, ?_⟩
+          rw [h4, ents_push ni nd hn]
+        · simp only [cf, if_false, Bool.false_eq_true]
+          obtain ⟨c', j', ni', nd', h1, h2, h3, h4⟩ := ih (j + 1) _ ni nd hn (by omega) (by omega) (by omega)
+          exact ⟨c', j', ni', nd', h1, h2, by omega, h4⟩
+    · have cj' : ¬ (j : Int) < (indices[i].size : Int) := by omega
+      rw [ents_drop_ge indices[i] distances[i] j (by omega), divLoop]
+      simp only [cj', if_false, Option.pure_def]
+      exact ⟨_, _, ni, nd, rfl, hn, by omega, rfl⟩
+
+/-- the candidate loop as `diversify` starts it for row `i` (`new_* = [entry 0]`, `j = 1`, a fresh
+generator) computes the model's `new_*` lists of the row: `(diversifyList … row).1` -/
+theorem diversify_row_new (indices : Array (Array Int)) (distances : Array (Array P)) (data : Array (Array P))
+    (i : Nat) (hi : i < indices.size) (hd : i < distances.size) (hw : indices[i].size = distances[i].size)
+    (h0 : 0 < indices[i].size) (fuel : Nat) (hf : 2 * indices[i].size + 2 ≤ fuel) :
+    ∃ (c' j' : Int) (ni' : Array Int) (nd' : Array P),
+      diversify.loop1 indices distances data () (i : Int) (indices[i].size : Int) fuel 0
+          #[indices[i][0]] #[distances[i][0]'(hw ▸ h0)] 1
+        = some (.next (c', ni', nd', j')) ∧ ni'.size = nd'.size ∧ ni'.size ≤ indices[i].size ∧
+      ents ni' nd' = (diversifyList DivParams.eps DivParams.dist (drawOf P i)
+        (ents indices[i] distances[i])).1 := by
+  obtain ⟨c', j', ni', nd', h1, h2, h3, h4⟩ := diversify_loop1 indices distances data i hi hd hw fuel 1 0
+    #[indices[i][0]] #[distances[i][0]'(hw ▸ h0)] (by simp) (by omega) (by simp) (by omega)
+  refine ⟨c', j', ni', nd', h1, h2, by simp at h3; omega, ?_⟩
+  rw [h4]
+  have e := ents_drop_lt indices[i] distances[i] hw 0 h0
+  rw [List.drop_zero] at e
+  rw [e, diversifyList]
+  rfl
+
+end Diversify
+
 end Pynn.GenSearchGraphProofs
